@@ -81,6 +81,7 @@ type oblig struct {
 	Status  string // discharged refuted undecided
 	Solver  string
 	Seconds float64
+	Dep     bool
 }
 
 type finding struct {
@@ -119,6 +120,9 @@ func loadFindings(path string) []finding {
 	}
 	return out
 }
+
+// gWorkDir is the scratch directory of this run (SMT scripts, replay files).
+var gWorkDir string
 
 func main() {
 	flag.Parse()
@@ -214,6 +218,9 @@ func main() {
 	var queries []*Query
 	done := map[string]bool{}
 	work := append([]*Contract(nil), targets...)
+	// thorough tier: the dependency ring. A property-filtered proof assumes every postcondition of every callee, including clauses
+	// tagged with other properties only; thorough also discharges those (all obligations of every function transitively assumed).
+	ring := tier == "thorough" && prop != "" && *flagFn == ""
 	for len(work) > 0 {
 		ct := work[0]
 		work = work[1:]
@@ -226,6 +233,9 @@ func main() {
 		for _, q := range r.queries {
 			if prop == "" || hasProp(q.Props, prop) || q.Kind == "callreq" || q.Kind == "cover" {
 				queries = append(queries, q)
+			} else if ring {
+				q.Dep = true
+				queries = append(queries, q)
 			}
 		}
 		for _, e := range r.errs {
@@ -233,7 +243,7 @@ func main() {
 		}
 		// closure: contracts assumed while verifying must themselves be verified for this property
 		for n := range r.assumed {
-			if c2 := C.ByName[n]; c2 != nil && !done[n] && !c2.NoBody && (*flagFn == "" || prop != "") && (prop == "" || contractMentions(c2, prop)) {
+			if c2 := C.ByName[n]; c2 != nil && !done[n] && !c2.NoBody && (*flagFn == "" || prop != "") && (prop == "" || ring || contractMentions(c2, prop)) {
 				if fn := eng.fns[n]; fn != nil && fn.Blocks != nil {
 					work = append(work, c2)
 				}
@@ -299,6 +309,7 @@ func main() {
 		workDir = filepath.Join(*flagVerif, "work", orAll(prop))
 	}
 	os.RemoveAll(workDir) //nolint:errcheck
+	gWorkDir = workDir
 	// obligations recorded as known findings are expected not to discharge: give them a short time limit
 	for _, f := range loadFindings(filepath.Join(*flagVerif, "known_findings.txt")) {
 		if f.Kind == "finding" {
@@ -324,7 +335,7 @@ func main() {
 		}
 		o := byName[q.Name]
 		if o == nil {
-			o = &oblig{Name: q.Name, Props: q.Props, Status: "discharged"}
+			o = &oblig{Name: q.Name, Props: q.Props, Status: "discharged", Dep: q.Dep}
 			byName[q.Name] = o
 			obls = append(obls, o)
 		}
